@@ -598,7 +598,7 @@ func (c *Ctx) webSorted(start ssa.Value) (sorted, returned bool) {
 			if calleeIs(call, "sort", "Strings") || calleeIs(call, "sort", "Sort") || calleeIs(call, "sort", "Stable") || calleeIs(call, "sort", "Slice") || calleeIs(call, "sort", "SliceStable") || calleeIs(call, "sort", "Ints") {
 				sorted = true
 			}
-			if f := call.Call.StaticCallee(); f != nil && c.isRepoFn(f) && f.Name() == "errorSort" {
+			if f := call.Call.StaticCallee(); f != nil && c.isRepoFn(f) && baseName(f) == "errorSort" {
 				sorted = true
 			}
 		}
@@ -636,7 +636,7 @@ func ruleOrderSortKey(c *Ctx) []Obligation {
 				comparesName = true
 			}
 			if call, okc := bo.X.(*ssa.Call); okc {
-				if cal := call.Call.StaticCallee(); cal != nil && cal.Name() == "modulePrefixedName" {
+				if cal := call.Call.StaticCallee(); cal != nil && baseName(cal) == "modulePrefixedName" {
 					comparesQualified = true // the dictionary key function (ID.KEY): module:name, unique
 				}
 				if cal := call.Call.StaticCallee(); cal != nil && cal.Name() == "PrefixedName" {
